@@ -11,6 +11,7 @@ import (
 	"os/exec"
 	"path/filepath"
 	"regexp"
+	"runtime"
 	"runtime/debug"
 	"sort"
 	"strings"
@@ -61,6 +62,61 @@ func blockedThread() string {
 	return ""
 }
 
+// allThreadsParked: every thread sits in futex, epoll_wait, epoll_pwait, nanosleep or clock_nanosleep.
+func allThreadsParked() bool {
+	runtime.LockOSThread()
+	defer runtime.UnlockOSThread()
+	tasks, _ := os.ReadDir("/proc/self/task")
+	if len(tasks) == 0 {
+		return false
+	}
+	me := fmt.Sprint(syscall.Gettid())
+	for _, t := range tasks {
+		if t.Name() == me {
+			continue // the thread that is looking
+		}
+		b, err := os.ReadFile("/proc/self/task/" + t.Name() + "/syscall")
+		if err != nil {
+			continue
+		}
+		f := strings.Fields(string(b))
+		if len(f) == 0 {
+			return false
+		}
+		switch f[0] {
+		case "202", "232", "281", "35", "230":
+		default:
+			return false
+		}
+	}
+	// a command that is still running: waiting for it is not a dead-lock
+	return !hasChildProcesses()
+}
+
+// hasChildProcesses: some process has this one as its parent.
+func hasChildProcesses() bool {
+	self := os.Getpid()
+	ents, _ := os.ReadDir("/proc")
+	for _, e := range ents {
+		n := e.Name()
+		if n[0] < '0' || n[0] > '9' {
+			continue
+		}
+		b, err := os.ReadFile("/proc/" + n + "/stat")
+		if err != nil {
+			continue
+		}
+		// pid (comm) state ppid ...
+		if i := strings.LastIndexByte(string(b), ')'); i > 0 {
+			f := strings.Fields(string(b[i+1:]))
+			if len(f) > 1 && f[1] == fmt.Sprint(self) {
+				return true
+			}
+		}
+	}
+	return false
+}
+
 // watch runs f under the crash and hang monitors. It returns false when the
 // worker must stop (the goroutine running f is lost).
 func watch(c *core.Ctx, id, what string, detail any, f func()) bool {
@@ -80,6 +136,8 @@ func watch(c *core.Ctx, id, what string, detail any, f func()) bool {
 	tick := time.NewTicker(200 * time.Millisecond)
 	defer tick.Stop()
 	blockedSamples := 0
+	var parkedSince time.Time
+	parkedCPU, parkedTicks, allTicks := 0.0, 0, 0
 	lastCPU := cpu0
 	for {
 		select {
@@ -101,6 +159,27 @@ func watch(c *core.Ctx, id, what string, detail any, f func()) bool {
 				}
 			} else {
 				blockedSamples = 0
+			}
+			// third witness: the call sleeps - no CPU use and every thread of the process parked in
+			// futex / epoll / nanosleep (nothing is being read, no child is being waited for)
+			// third witness: the call sleeps - every thread of the process parked in futex / epoll /
+			// nanosleep (nothing is being read, no child is being waited for) for ten seconds during
+			// which the process (this monitor included) used next to no CPU
+			if time.Since(t0) > 5*time.Second {
+				if parkedSince.IsZero() {
+					parkedSince, parkedCPU, parkedTicks, allTicks = time.Now(), cpu, 0, 0
+				}
+				allTicks++
+				if allThreadsParked() {
+					parkedTicks++
+				}
+				if time.Since(parkedSince) > 10*time.Second {
+					if parkedTicks*10 >= allTicks*8 && cpu-parkedCPU < 1.5 {
+						c.Violation(fmt.Sprintf("%s does not return: every thread of the process is parked and no CPU is used (dead-locked goroutines)", what), id, map[string]any{"threads": threadStates(), "parked_samples": fmt.Sprintf("%d of %d in 10 s", parkedTicks, allTicks), "input": detail})
+						return false
+					}
+					parkedSince = time.Time{}
+				}
 			}
 			lastCPU = cpu
 			if time.Since(t0) > 120*time.Second {
@@ -726,6 +805,21 @@ func c15HostileDirs(c *core.Ctx, e *c15Env, fast []gen.KeyPair) {
 	hs := []hostile{
 		{"garbage bytes", func(ch *gen.Chain, n string) { os.WriteFile(n, []byte("\x00\xff garbage"), 0644) }},
 		{"empty file", func(ch *gen.Chain, n string) { os.WriteFile(n, nil, 0644) }},
+		{"forty unloadable files named like links of the step next to the honest one", func(ch *gen.Chain, n string) {
+			for i := 0; i < 40; i++ {
+				p := filepath.Join(ch.LinkDir, fmt.Sprintf("write.%08x.link", 0xaa000000+i))
+				switch i % 4 {
+				case 0:
+					os.WriteFile(p, []byte("garbage"), 0644)
+				case 1:
+					os.WriteFile(p, nil, 0644)
+				case 2:
+					os.Mkdir(p, 0755)
+				default:
+					os.Symlink("does-not-exist", p)
+				}
+			}
+		}},
 		{"directory named like a link", func(ch *gen.Chain, n string) { os.Remove(n); os.Mkdir(n, 0755) }},
 		{"dangling symlink", func(ch *gen.Chain, n string) { os.Remove(n); os.Symlink("does-not-exist", n) }},
 		{"symlink loop", func(ch *gen.Chain, n string) { os.Remove(n); os.Symlink(filepath.Base(n), n) }},
@@ -947,7 +1041,7 @@ func init() {
 	core.Register(&core.Property{
 		ID:    "C15",
 		Level: "exploration",
-		Rule: "(1) byte strings offered as metadata files: random bytes, random JSON-alphabet strings and random concatenations of metadata fragments of 0-4 KiB; structure-aware mutations (null, other type, delete, insert, rename, replace at every JSON path, also inside DSSE payloads incl. URL-safe and unpadded base64; hostile values: huge/negative/float/exponent numbers, 70 KB strings, invalid UTF-8, NUL, nested empties; BOM, trailing bytes, truncation, duplicated member, bit flips) of valid links and layouts in both wrappers; 10000-deep nesting, 1 MiB strings, 10000 signatures - all through LoadMetadata and Metablock.Load, and whatever loads goes through ValidateMetablock, GetSignableRepresentation, Sigs, GetSignatureForKeyID, GetCertificate, VerifySignature with 3 key types, Sign with 2 key types; (2) a catalogue of degenerate but correctly signed layouts (empty / one-token / odd rules in steps and inspections, thresholds 0, negative, 2^62, with present / missing / unverifiable links, no steps, duplicated and hostile names, keys whose type contradicts their material, truncated and garbage PEM, Ed25519 halves of 0..128 hex characters, garbage certificates and CAs, odd pubkeys, huge lists, odd inspection commands) x 2 wrappers x 2 entry points through Sign, InTotoVerify*, LoadMetadata, ValidateMetablock (complete enumeration of the catalogue: fault-enumeration style); (3) hostile link directories under a sane layout (garbage, empty, directory / dangling symlink / symlink loop / named pipe / symlink to /dev/zero named like a link, unreadable file, odd and 20000 signatures, garbage certificates, null collections, odd hash objects, sublayouts: with directory, directory symlinked to its parent, two self-referencing steps, odd type marker, garbage content, keys section contradicting the functionary's key; thorough: 64 MiB file); (4) malformed key objects: RSA / ECDSA P-256 / P-384 / Ed25519 keys with every combination of {own public, own private, empty, garbage, certificate, PEM with garbage body, PEM blocks that hold no key (EC PARAMETERS, CRL), the halves of each other key type} in the public and private field, used by Sign and VerifySignature of both wrappers (a genuine signature present under the id) and as functionary key of a layout that has a link under its id; (5) thorough only: coverage-guided native fuzzing (go test -fuzz, bounded by execution count) of three targets. " +
+		Rule: "(1) byte strings offered as metadata files: random bytes, random JSON-alphabet strings and random concatenations of metadata fragments of 0-4 KiB; structure-aware mutations (null, other type, delete, insert, rename, replace at every JSON path, also inside DSSE payloads incl. URL-safe and unpadded base64; hostile values: huge/negative/float/exponent numbers, 70 KB strings, invalid UTF-8, NUL, nested empties; BOM, trailing bytes, truncation, duplicated member, bit flips) of valid links and layouts in both wrappers; 10000-deep nesting, 1 MiB strings, 10000 signatures - all through LoadMetadata and Metablock.Load, and whatever loads goes through ValidateMetablock, GetSignableRepresentation, Sigs, GetSignatureForKeyID, GetCertificate, VerifySignature with 3 key types, Sign with 2 key types; (2) a catalogue of degenerate but correctly signed layouts (empty / one-token / odd rules in steps and inspections, thresholds 0, negative, 2^62, with present / missing / unverifiable links, no steps, duplicated and hostile names, keys whose type contradicts their material, truncated and garbage PEM, Ed25519 halves of 0..128 hex characters, garbage certificates and CAs, odd pubkeys, huge lists, odd inspection commands) x 2 wrappers x 2 entry points through Sign, InTotoVerify*, LoadMetadata, ValidateMetablock (complete enumeration of the catalogue: fault-enumeration style); (3) hostile link directories under a sane layout (garbage, empty, forty unloadable files named like links of one step, directory / dangling symlink / symlink loop / named pipe / symlink to /dev/zero named like a link, unreadable file, odd and 20000 signatures, garbage certificates, null collections, odd hash objects, sublayouts: with directory, directory symlinked to its parent, two self-referencing steps, odd type marker, garbage content, keys section contradicting the functionary's key; thorough: 64 MiB file); (4) malformed key objects: RSA / ECDSA P-256 / P-384 / Ed25519 keys with every combination of {own public, own private, empty, garbage, certificate, PEM with garbage body, PEM blocks that hold no key (EC PARAMETERS, CRL), the halves of each other key type} in the public and private field, used by Sign and VerifySignature of both wrappers (a genuine signature present under the id) and as functionary key of a layout that has a link under its id; (5) thorough only: coverage-guided native fuzzing (go test -fuzz, bounded by execution count) of three targets. " +
 			"Monitors: recover() + journal attribution of process-fatal errors; hang = >20 CPU-s on a small input (spinning) or a thread of ours blocked in open/read on a pipe with no CPU progress over 3 samples (witness from /proc), else inconclusive. non-trivial = input differs from every valid seed; distinct = hash of the input / catalogue entry",
 		Assumptions: []string{"zero-value Go objects that no loader can produce (an Envelope without inner envelope, nil Metadata) are API misuse, not metadata, and are not offered", "a call that is slow but makes progress is inconclusive after 120 s"},
 		Workers:     func(string) int { return 16 },
